@@ -173,10 +173,12 @@ def term_key(e):
     s = e[2]
     if s[0] == "scalar" and s[1]:
         return "scalar:%s" % s[1]
-    if s[0] == "opaque" and isinstance(s[1], str) and s[1].startswith("reg:"):
+    if s[0] == "opaque" and isinstance(s[1], str) and (s[1].startswith("reg:") or "#" in s[1]):
         return s[1]
     if s[0] == "const" and s[1] is not None:
         return "const:%s:%s" % (s[1], ilshape.wnorm(e[1], {}))
+    if s[0] == "const" and len(s) > 2:
+        return "const#%s" % s[2]
     if s[0] == "op":
         ks = [term_key(a) for a in s[2]]
         if all(k is not None for k in ks):
@@ -286,7 +288,54 @@ def r3(db, rep, runs, arches=ARCHES, rid="R3"):
                 else:
                     r.bad(key, where, "edges leaving one block are not mutually exclusive and exhaustive (%s): %s" % (v[1], " / ".join(shown)))
     r.floor(8, "conditional edge pairs in the lifters")
-    # successor lists of the terminator arms (translate_block) are covered per architecture by the lifter property checks
+    # successors pushed by one terminator (translate_block interpreted as a whole, handlers inlined)
+    sh = ilshape.Shape(db)
+    for arch in arches:
+        res = sh.run(lifters.TB[arch])
+        fb = db.hir[lifters.TB[arch]]
+        fams = {}
+        for s_ in res.succ:
+            fams.setdefault(s_["ctx"], []).append(s_)
+        # merge a conditional push with pushes in a directly nested context (x86: second successor under `if imm`)
+        keys = sorted(fams, key=len)
+        merged = {}
+        for k in keys:
+            host = None
+            for m in merged:
+                if k[:len(m)] == m or (len(k) == len(m) and k[:-1] == m[:-1] and False):
+                    host = m
+            par = [m for m in merged if len(m) <= len(k) and all(x in k or x.startswith("if@") for x in m) and m[-1:] != k[-1:] and set(m) & set(k)]
+            merged.setdefault(k, []).extend(fams[k])
+        for ctx, fam in merged.items():
+            conds = [f for f in fam if f["guard"] is not None]
+            if not conds:
+                continue
+            # siblings: pushes whose context shares the terminator arm (first differing element is an `if`)
+            sib = list(fam)
+            for c2, f2 in merged.items():
+                if c2 is ctx:
+                    continue
+                common = [x for x in ctx if x in c2]
+                if common and any(x.startswith("match@") for x in common) and len(set(ctx) ^ set(c2)) <= 2:
+                    sib.extend(f2)
+            uniq = []
+            for f in sib:
+                if f not in uniq:
+                    uniq.append(f)
+            if len(uniq) < 2:
+                r.open("%s|successors|%s" % (arch, fam[0]["line"]), db.where(db.hir.get(fam[0]["fn"]) or fb, fam[0]["line"]),
+                       "single conditional successor in its context")
+                continue
+            v = exactly_one([f["guard"] for f in uniq])
+            key = "%s|successors|%s|%s" % (arch, last_seg(uniq[0]["fn"]), "/".join(str(x) for x in ctx[-2:]))
+            where = db.where(db.hir.get(uniq[0]["fn"]) or fb, uniq[0]["line"])
+            shown = [ilshape.show_e(f["guard"]) if f["guard"] not in (None, "?") else str(f["guard"]) for f in uniq]
+            if v is True:
+                r.ok(key, where, detail={"guards": shown})
+            elif v is None:
+                r.open(key, where, "successor guards not decidable: %s" % shown)
+            else:
+                r.bad(key, where, "successors of one terminator are not mutually exclusive and exhaustive (%s): %s" % (v[1], " / ".join(shown)))
     return n
 
 
